@@ -44,6 +44,7 @@ package protocol
 import (
 	"fmt"
 	"io"
+	"io/ioutil"
 	"mime/multipart"
 	"net/http"
 	"net/textproto"
@@ -69,6 +70,13 @@ func ReadMultipartForm(r io.Reader, boundary string, size, maxInMemoryFileSize i
 	mr := multipart.NewReader(lr, boundary)
 	f, err := mr.ReadForm(int64(maxInMemoryFileSize))
 	if err != nil {
+		return nil, fmt.Errorf("cannot read multipart/form-data body: %s", err)
+	}
+	// The multipart reader stops at the closing boundary. What is left of the
+	// declared size (an epilogue) still belongs to this body: when r is a
+	// connection it must not be taken for the beginning of the next message.
+	if _, err = io.Copy(ioutil.Discard, lr); err != nil {
+		f.RemoveAll() //nolint:errcheck
 		return nil, fmt.Errorf("cannot read multipart/form-data body: %s", err)
 	}
 	return f, nil
